@@ -382,4 +382,344 @@ Section Keys.
     pose proof (select_valid_inv true cnt _ vi r1 (dirl_plain true thr cnt ce) Hi R1) as I1.
     rewrite <- E1 in E0. unfold skey in E0. injection E0 as E _ _. congruence.
   Qed.
+
+  (** ** whole runs *)
+  Lemma shex_unfold thr P C shapes :
+    shex fa cfg thr P C = inl shapes ->
+    exists shapes0, Forall2 (fun ce sh => shex_class fa cfg thr C ce = inl sh) P shapes0 /\
+                    (if x_remove_empty cfg then clean_shapes (S (List.length shapes0)) shapes0 = inl shapes
+                     else shapes = shapes0).
+  Proof.
+    unfold shex. destruct (map_err (shex_class fa cfg thr C) P) as [shapes0|e] eqn:E; [|discriminate].
+    apply map_err_Forall2 in E. intros H. exists shapes0. split; [exact E|].
+    destruct (x_remove_empty cfg); [exact H | injection H as <-; reflexivity].
+  Qed.
+
+  (** K1 (C02): one shape per class of the profile, in order, named after the
+      class and carrying its count; the keys of a shape are exactly the keys
+      some entry of which reaches the threshold, and no key occurs twice *)
+  Theorem K1 thr P C shapes :
+    x_remove_empty cfg = false -> shex fa cfg thr P C = inl shapes ->
+    Forall2 (fun ce sh =>
+      sh_name sh = shape_name (x_shapes_ns cfg) (fst ce) /\ sh_class sh = fst ce /\
+      sh_n sh = cnt_of C (fst ce) /\
+      (forall inv p vc, In (inv, p, vc) (map skey (sh_stmts sh)) <->
+                        key_passes thr (cnt_of C (fst ce)) (class_pd ce inv) p vc) /\
+      (pd_no_nl (class_pd ce false) -> pd_no_nl (class_pd ce true) -> NoDup (map skey (sh_stmts sh))))
+      P shapes.
+  Proof.
+    intros Hre H. destruct (shex_unfold thr P C shapes H) as [shapes0 [F Hc]]. rewrite Hre in Hc. subst shapes0.
+    eapply Forall2_impl_In; [|exact F]. intros ce sh _ _ Hs.
+    destruct (shex_class_unfold thr C ce sh Hs) as (vd & vi & _ & _ & _ & E1 & E2 & E3).
+    repeat split; auto.
+    - apply (shex_class_keys thr C ce sh Hs).
+    - apply (shex_class_keys thr C ce sh Hs).
+    - apply (shex_class_NoDup thr C ce sh Hs).
+  Qed.
+
+  (** ** K3: figures *)
+
+  (** where a figure (count, probability, cardinality) of property [p] and
+      type [k] comes from: one profile entry, or the IRI and BNode entries
+      of the merged kind *)
+  Inductive fig_src (pd : pdict) (p : str) : str -> N -> prob -> card -> Prop :=
+  | FS_entry k ck n : pd_entry pd p k ck n -> fig_src pd p k n (PRatio n) (card_of_key ck)
+  | FS_merge ckb nb cki ni :
+      pd_entry pd p c_BNODE_ELEM_TYPE ckb nb -> pd_entry pd p c_IRI_ELEM_TYPE cki ni ->
+      fig_src pd p c_NONLITERAL_ELEM_TYPE (nb + ni) (PSum nb ni)
+              (most_general_card (card_of_key ckb) (card_of_key cki)).
+
+  Lemma fig_src_entry pd p k n pr c :
+    fig_src pd p k n pr c -> k <> c_NONLITERAL_ELEM_TYPE ->
+    exists ck, pd_entry pd p k ck n /\ pr = PRatio n /\ c = card_of_key ck.
+  Proof. intros H Hk. destruct H; [eauto | contradiction]. Qed.
+
+  Definition comment_ok (pd : pdict) (p : str) (k : comment) : Prop :=
+    match k with
+    | KStmt ch pr n tk c =>
+      exists ty, fig_src pd p ty n pr c /\ (ch = false -> tune_token (x_ns cfg) ty = Some tk)
+    | KRaw _ => False
+    end.
+
+  (** a statement before tuning *)
+  Definition pre_ok (pd : pdict) (s : stmt) : Prop :=
+    (exists ty, In ty (s_types s) /\ (s_choice s = false -> s_types s = [ty]) /\
+                fig_src pd (s_prop s) ty (s_nocc s) (s_prob s) (s_card s)) /\
+    Forall (comment_ok pd (s_prop s)) (s_comments s).
+
+  Lemma pre_ok_base pd d p k ck n : pd_entry pd p k ck n -> pre_ok pd (base_stmt d p k ck n).
+  Proof.
+    intros He. split; [|constructor]. exists k. cbn. split; [left; reflexivity|]. split; [reflexivity|].
+    apply FS_entry; exact He.
+  Qed.
+
+  Lemma comment_of_ok pd x k : pre_ok pd x -> comment_of cfg x = inl k -> comment_ok pd (s_prop x) k.
+  Proof.
+    intros [(ty & Hin & Hsing & Hf) _]. unfold comment_of. destruct (s_choice x) eqn:Ec.
+    - intros H; injection H as <-. cbn. exists ty. split; [exact Hf | discriminate].
+    - destruct (tune_token (x_ns cfg) (s_type x)) as [tk|] eqn:Et; [|discriminate].
+      intros H; injection H as <-. cbn. exists ty. split; [exact Hf|]. intros _.
+      unfold s_type in Et. rewrite (Hsing eq_refl) in Et. exact Et.
+  Qed.
+
+  Lemma comments_from_ok pd p g ks :
+    (forall x, In x g -> pre_ok pd x /\ s_prop x = p) -> comments_from cfg g ks ->
+    Forall (comment_ok pd p) ks.
+  Proof.
+    intros Hg Hk. unfold comments_from in Hk. rewrite Forall_forall in *. intros k Hin.
+    destruct (Hk k Hin) as [x [Hx Hc]]. destruct (Hg x Hx) as [Hp <-]. apply (comment_of_ok pd x k Hp Hc).
+  Qed.
+
+  Lemma pre_ok_core_comments pd r s ks :
+    core_eq r s -> pre_ok pd s -> s_comments r = s_comments s ++ ks ->
+    Forall (comment_ok pd (s_prop s)) ks -> pre_ok pd r.
+  Proof.
+    intros (C1 & C2 & C3 & C4 & C5 & C6 & C7) [Hf Hc] Hk Hks. unfold pre_ok.
+    rewrite C2, C3, C4, C5, C6, C7, Hk. split; [exact Hf|]. apply Forall_app. auto.
+  Qed.
+
+  Lemma chosen_ok pd p g r :
+    (forall x, In x g -> pre_ok pd x /\ s_prop x = p) -> chosen_from cfg g r -> pre_ok pd r /\ s_prop r = p.
+  Proof.
+    intros Hg (s & Hs & Hc & ks & Hk & Hf). destruct (Hg s Hs) as [Hps Hpr]. split.
+    - apply (pre_ok_core_comments pd r s ks Hc Hps Hk). rewrite Hpr. apply (comments_from_ok pd p g ks Hg Hf).
+    - destruct Hc as (_ & -> & _). exact Hpr.
+  Qed.
+
+  Lemma neq_BNODE_NONLIT : c_BNODE_ELEM_TYPE <> c_NONLITERAL_ELEM_TYPE.
+  Proof. intros H; vm_compute in H; discriminate. Qed.
+
+  Lemma neq_IRI_NONLIT : c_IRI_ELEM_TYPE <> c_NONLITERAL_ELEM_TYPE.
+  Proof. intros H; vm_compute in H; discriminate. Qed.
+
+  Lemma pre_ok_single pd x :
+    pre_ok pd x -> s_choice x = false ->
+    s_types x = [s_type x] /\ fig_src pd (s_prop x) (s_type x) (s_nocc x) (s_prob x) (s_card x).
+  Proof.
+    intros [(ty & _ & Hsing & Hf) _] Hc. specialize (Hsing Hc). unfold s_type. rewrite Hsing. cbn. auto.
+  Qed.
+
+  Lemma dominant_ok pd p g d0 :
+    (forall x, In x g -> pre_ok pd x /\ s_choice x = false /\ s_prop x = p) ->
+    dominant_of g d0 -> pre_ok pd d0 /\ s_choice d0 = false /\ s_prop d0 = p.
+  Proof.
+    intros Hg Hd. destruct Hd as [d0 Hin | b i Hb Hi Tb Ti]; [apply Hg; exact Hin|].
+    destruct (Hg b Hb) as (Pb & Cb & Eb). destruct (Hg i Hi) as (Pi & Ci & Ei).
+    destruct (pre_ok_single pd b Pb Cb) as [_ Fb]. destruct (pre_ok_single pd i Pi Ci) as [_ Fi].
+    unfold is_bnode in Tb. unfold is_iri in Ti. apply str_eqb_eq in Tb, Ti. rewrite Tb in Fb. rewrite Ti in Fi.
+    destruct (fig_src_entry _ _ _ _ _ _ Fb neq_BNODE_NONLIT) as (ckb & Hb1 & Hb2 & Hb3).
+    destruct (fig_src_entry _ _ _ _ _ _ Fi neq_IRI_NONLIT) as (cki & Hi1 & Hi2 & Hi3).
+    split; [|split; [reflexivity | exact Eb]].
+    split; [|constructor]. exists c_NONLITERAL_ELEM_TYPE. cbn.
+    split; [left; reflexivity|]. split; [reflexivity|].
+    rewrite Hb2, Hi2, Hb3, Hi3. rewrite Ei, <- Eb in Hi1. apply FS_merge; assumption.
+  Qed.
+
+  Lemma merge_ok pd p cnt g r :
+    (forall x, In x g -> pre_ok pd x /\ s_choice x = false /\ s_prop x = p) ->
+    merge_group fa cfg cnt g = inl r -> pre_ok pd r /\ s_prop r = p.
+  Proof.
+    intros Hg H. apply merge_group_spec in H. destruct H as (d0 & d1 & ks & Hd & Ho & Hc & Hk & Hf).
+    destruct (dominant_ok pd p g d0 Hg Hd) as (P0 & C0 & E0).
+    assert (P1 : pre_ok pd d1 /\ s_prop d1 = p).
+    { destruct Ho as [|tys Hlen Hin _]; [auto|]. split; [|exact E0].
+      destruct (pre_ok_single pd d0 P0 C0) as [_ F0].
+      split; [|constructor]. exists (s_type d0). cbn. split; [exact Hin|]. split; [discriminate | exact F0]. }
+    destruct P1 as [P1 E1]. split.
+    - apply (pre_ok_core_comments pd r d1 ks Hc P1 Hk). rewrite E1.
+      apply (comments_from_ok pd p g ks); [|exact Hf]. intros x Hx. destruct (Hg x Hx) as (A & _ & B). auto.
+    - destruct Hc as (_ & -> & _). exact E1.
+  Qed.
+
+  (** figures through [select_valid] *)
+  Theorem select_valid_ok pd d cnt l out :
+    Forall (plain d) l -> Forall (pre_ok pd) l -> select_valid fa cfg cnt l = inl out ->
+    Forall (pre_ok pd) out.
+  Proof.
+    intros Hpl Hok H. rewrite select_valid_eq in H.
+    destruct (group_same fa cfg (List.length l) cnt l) as [l1|e] eqn:E1; [|discriminate].
+    pose proof (group_nodes_spec fa cfg _ cnt l1 out (le_n _) H) as F.
+    rewrite Forall_forall in Hpl, Hok.
+    assert (P1 : forall r, In r l1 -> pre_ok pd r /\ s_choice r = false).
+    { intros r Hr. pose proof (group_same_out fa cfg _ cnt l l1 r (le_n _) E1 Hr) as Hch.
+      split.
+      - refine (proj1 (chosen_ok pd (s_prop r) _ r _ Hch)). intros x Hx. apply filter_In in Hx.
+        destruct Hx as [Hx Ht]. split; [apply Hok, Hx|]. apply tok_eqb_eq in Ht. unfold tok in Ht. congruence.
+      - destruct Hch as (s & Hs & Hc & _). apply filter_In in Hs. destruct (Hpl s (proj1 Hs)) as (_ & Hcs & _).
+        destruct Hc as (_ & _ & _ & -> & _). exact Hcs. }
+    apply Forall_forall. intros r Hr. destruct (Forall2_In_r _ _ _ _ F Hr) as [a [Ha Hp]].
+    apply (node_heads_In cfg) in Ha. unfold node_pick in Hp.
+    destruct (node_pass cfg a); [subst r; apply P1, Ha|].
+    assert (Hg : forall x, In x (node_group cfg l1 a) -> pre_ok pd x /\ s_choice x = false /\ s_prop x = s_prop a).
+    { intros x Hx. apply node_group_In in Hx. destruct Hx as (H1 & _ & H3). destruct (P1 x H1). auto. }
+    destruct (node_group cfg l1 a) as [|x [|y g]] eqn:Eg; [destruct Hp| |].
+    - subst r. apply Hg. left; reflexivity.
+    - apply (merge_ok pd (s_prop a) cnt _ r Hg Hp).
+  Qed.
+
+  (** what [disable_exact_cardinality] may do to the original cardinality *)
+  Definition card_tuned (c0 c : card) : Prop :=
+    c = c0 \/ (x_disable_exact cfg = true /\ exists k, c0 = CExact k /\ (1 < k)%N /\ c = CPlus).
+
+  (** a statement of an output shape: its count, probability and ORIGINAL
+      cardinality [c0] are a figure of the profile for its property and (one
+      of) its type(s); the printed cardinality is [c0], or [+] for an exact
+      [{k>1}] under [disable_exact]; or the statement was relaxed: then it
+      shows probability one and [?]/[*], and its first comment carries the
+      original figure.  All comments carry figures of the profile too. *)
+  Definition post_ok (pd : pdict) (t : stmt) : Prop :=
+    exists ty pr0 c0,
+      In ty (s_types t) /\ (s_choice t = false -> s_types t = [ty]) /\
+      fig_src pd (s_prop t) ty (s_nocc t) pr0 c0 /\
+      Forall (comment_ok pd (s_prop t)) (s_comments t) /\
+      ((s_prob t = pr0 /\ card_tuned c0 (s_card t)) \/
+       (x_all_compliant cfg = true /\ s_prob t = POne /\ s_card t = relax_card cfg c0 /\
+        (x_disable_comments cfg = false ->
+         exists tk rest, s_comments t = KStmt (s_choice t) pr0 (s_nocc t) tk c0 :: rest))).
+
+  Lemma comment_of_shape x k :
+    comment_of cfg x = inl k -> exists tk, k = KStmt (s_choice x) (s_prob x) (s_nocc x) tk (s_card x).
+  Proof.
+    unfold comment_of. destruct (s_choice x).
+    - intros H; injection H as <-. eexists; reflexivity.
+    - destruct (tune_token (x_ns cfg) (s_type x)); [|discriminate]. intros H; injection H as <-. eexists; reflexivity.
+  Qed.
+
+  Lemma relax_card_cases c : relax_card cfg c = COpt \/ relax_card cfg c = CStar.
+  Proof. unfold relax_card. destruct (x_allow_opt cfg && card_eqb c (CExact 1)); auto. Qed.
+
+  Theorem tune_one_ok pd cnt s t :
+    pre_ok pd s -> tune_one fa cfg cnt s = inl t -> post_ok pd t /\ s_inv t = s_inv s.
+  Proof.
+    intros [(ty & Hin & Hsing & Hf) Hcom] H. apply tune_one_spec in H. destruct H as [s1 [Hr ->]].
+    destruct (tune_post_fields cfg s1) as (T1 & T2 & T3 & T4).
+    pose proof (relax_step_sig fa cfg cnt s s1 Hr) as S1. rewrite S1 in T1.
+    unfold sig in T1. injection T1 as I1 I2 I3 I4 I5.
+    split; [|exact I1].
+    exists ty, (s_prob s), (s_card s). rewrite I2, I3, I4, I5.
+    split; [exact Hin|]. split; [exact Hsing|]. split; [exact Hf|].
+    destruct Hr as [Hoff | Hon Hone | k Hon Hne Hk].
+    - split; [rewrite T3; destruct (x_disable_comments cfg); [constructor | exact Hcom]|].
+      left. split; [exact T2|]. rewrite T4. unfold card_tuned.
+      destruct (x_disable_exact cfg); [|left; reflexivity].
+      destruct (s_card s) as [k| | |]; try (left; reflexivity).
+      destruct (N.ltb 1 k) eqn:El; [|left; reflexivity]. right. split; [reflexivity|].
+      exists k. apply N.ltb_lt in El. auto.
+    - split; [rewrite T3; destruct (x_disable_comments cfg); [constructor | exact Hcom]|].
+      left. split; [exact T2|]. rewrite T4. unfold card_tuned.
+      destruct (x_disable_exact cfg); [|left; reflexivity].
+      destruct (s_card s) as [k0| | |]; try (left; reflexivity).
+      destruct (N.ltb 1 k0) eqn:El; [|left; reflexivity]. right. split; [reflexivity|].
+      exists k0. apply N.ltb_lt in El. auto.
+    - assert (Hk' : comment_ok pd (s_prop s) k).
+      { apply (comment_of_ok pd s k); [|exact Hk]. split; [exists ty; auto | exact Hcom]. }
+      split.
+      + rewrite T3. destruct (x_disable_comments cfg); [constructor|]. cbn. constructor; assumption.
+      + right. split; [exact Hon|]. split; [rewrite T2; reflexivity|]. split.
+        * rewrite T4. cbn [relaxed s_card].
+          destruct (relax_card_cases (s_card s)) as [->| ->]; destruct (x_disable_exact cfg); reflexivity.
+        * intros Hdc. rewrite T3, Hdc. cbn. destruct (comment_of_shape s k Hk) as [tk ->].
+          exists tk, (s_comments s). reflexivity.
+  Qed.
+
+  (** K3 for one class *)
+  Theorem shex_class_figs thr C ce sh :
+    shex_class fa cfg thr C ce = inl sh ->
+    forall st, In st (sh_stmts sh) -> post_ok (class_pd ce (s_inv st)) st.
+  Proof.
+    intros H st Hst. destruct (shex_class_unfold thr C ce sh H) as (vd & vi & Hd & Hi & Ht & _).
+    set (cnt := cnt_of C (fst ce)) in *.
+    apply tune_spec in Ht. destruct (Forall2_In_r _ _ _ _ Ht Hst) as [s [Hs Hone]].
+    apply sort_desc_In in Hs.
+    assert (Hok : forall d, Forall (pre_ok (class_pd ce d)) (dirl d (class_sorted thr cnt ce))).
+    { intros d. apply Forall_forall. intros x Hx. apply dirl_In in Hx.
+      destruct Hx as (p & k & ck & n & He & _ & ->). apply pre_ok_base; exact He. }
+    assert (G : forall d v, select_valid fa cfg cnt (dirl d (class_sorted thr cnt ce)) = inl v -> In s v ->
+                post_ok (class_pd ce (s_inv st)) st).
+    { intros d v Hv Hin.
+      pose proof (select_valid_ok _ d cnt _ v (dirl_plain d thr cnt ce) (Hok d) Hv) as Hall.
+      rewrite Forall_forall in Hall.
+      pose proof (select_valid_inv d cnt _ v s (dirl_plain d thr cnt ce) Hv Hin) as Hinv.
+      destruct (tune_one_ok _ cnt s st (Hall s Hin) Hone) as [Hp Hi']. rewrite Hi', Hinv. exact Hp. }
+    apply in_app_or in Hs. destruct Hs as [Hs|Hs]; [apply (G false vd Hd Hs) | apply (G true vi Hi Hs)].
+  Qed.
+
+  (** ** [clean_shapes] only deletes *)
+  Lemma prune_shape_sub names s s' :
+    prune_shape names s = inl s' ->
+    sh_name s' = sh_name s /\ sh_class s' = sh_class s /\ sh_n s' = sh_n s /\
+    forall st, In st (sh_stmts s') <-> In st (sh_stmts s) /\ mem_str (s_type st) names = false.
+  Proof.
+    unfold prune_shape. destruct (existsb (fun st => s_choice st) (sh_stmts s)); [discriminate|].
+    intros H; injection H as <-. cbn [sh_name sh_class sh_n sh_stmts].
+    split; [reflexivity|]. split; [reflexivity|]. split; [reflexivity|].
+    intros st. rewrite in_app_iff, !filter_In, negb_true_iff. split.
+    - intros [[[H1 H2] _]|[[H1 H2] _]]; auto.
+    - intros [H1 H2]. destruct (s_inv st); cbn; auto.
+  Qed.
+
+  Definition shape_sub (s' s : shape) : Prop :=
+    sh_name s' = sh_name s /\ sh_class s' = sh_class s /\ sh_n s' = sh_n s /\
+    incl (sh_stmts s') (sh_stmts s).
+
+  Theorem clean_shapes_sub fuel l l' :
+    clean_shapes fuel l = inl l' -> forall s', In s' l' -> exists s, In s l /\ shape_sub s' s.
+  Proof.
+    revert l l'; induction fuel as [|f IH]; intros l l' H s' Hs'.
+    - cbn in H. injection H as <-. exists s'. split; [exact Hs'|]. repeat split; auto. apply incl_refl.
+    - cbn [clean_shapes] in H. destruct (empty_names l) as [|nm names] eqn:En.
+      + injection H as <-. exists s'. split; [exact Hs'|]. repeat split; auto. apply incl_refl.
+      + destruct (map_err (prune_shape (nm :: names)) (filter (fun s => negb (mem_str (sh_name s) (nm :: names))) l))
+          as [l2|e] eqn:Em; [|discriminate].
+        destruct (IH l2 l' H s' Hs') as [s2 [Hs2 (A1 & A2 & A3 & A4)]].
+        apply map_err_Forall2 in Em. destruct (Forall2_In_r _ _ _ _ Em Hs2) as [s [Hs Hp]].
+        apply filter_In in Hs. destruct Hs as [Hs _].
+        destruct (prune_shape_sub _ _ _ Hp) as (B1 & B2 & B3 & B4).
+        exists s. split; [exact Hs|]. unfold shape_sub. rewrite A1, A2, A3, B1, B2, B3. repeat split; auto.
+        intros st Hst. apply A4 in Hst. apply B4 in Hst. tauto.
+  Qed.
+
+  (** K3 (C01): every output shape belongs to a class of the profile, carries
+      its count, and all its figures are figures of the profile -- whatever
+      the threshold and whether or not empty shapes are removed *)
+  Theorem K3 thr P C shapes :
+    shex fa cfg thr P C = inl shapes ->
+    forall sh, In sh shapes ->
+    exists ce, In ce P /\ sh_name sh = shape_name (x_shapes_ns cfg) (fst ce) /\ sh_class sh = fst ce /\
+               sh_n sh = cnt_of C (fst ce) /\
+               forall st, In st (sh_stmts sh) -> post_ok (class_pd ce (s_inv st)) st.
+  Proof.
+    intros H sh Hsh. destruct (shex_unfold thr P C shapes H) as [shapes0 [F Hc]].
+    assert (G : forall sh0, In sh0 shapes0 ->
+                exists ce, In ce P /\ sh_name sh0 = shape_name (x_shapes_ns cfg) (fst ce) /\ sh_class sh0 = fst ce /\
+                           sh_n sh0 = cnt_of C (fst ce) /\
+                           forall st, In st (sh_stmts sh0) -> post_ok (class_pd ce (s_inv st)) st).
+    { intros sh0 H0. destruct (Forall2_In_r _ _ _ _ F H0) as [ce [Hce Hs]].
+      destruct (shex_class_unfold thr C ce sh0 Hs) as (vd & vi & _ & _ & _ & E1 & E2 & E3).
+      exists ce. repeat split; auto. apply (shex_class_figs thr C ce sh0 Hs). }
+    destruct (x_remove_empty cfg).
+    - destruct (clean_shapes_sub _ _ _ Hc sh Hsh) as [sh0 [H0 (A1 & A2 & A3 & A4)]].
+      destruct (G sh0 H0) as (ce & B0 & B1 & B2 & B3 & B4).
+      exists ce. rewrite A1, A2, A3. repeat split; auto.
+    - subst shapes0. apply G; exact Hsh.
+  Qed.
+
+  (** the figure of a (property, type, original cardinality) alternative is a
+      function of the profile: no threshold can change it (merged kind apart) *)
+  Definition pd_functional (pd : pdict) : Prop :=
+    forall p k ck n n', pd_entry pd p k ck n -> pd_entry pd p k ck n' -> n = n'.
+
+  Lemma card_of_key_inj a b : card_of_key a = card_of_key b -> a = b.
+  Proof. destruct a, b; cbn; intros H; try discriminate; [injection H as ->|]; reflexivity. Qed.
+
+  Theorem fig_src_functional pd p k n n' pr pr' c :
+    pd_functional pd -> k <> c_NONLITERAL_ELEM_TYPE ->
+    fig_src pd p k n pr c -> fig_src pd p k n' pr' c -> n = n' /\ pr = pr'.
+  Proof.
+    intros Hfun Hk H1 H2.
+    destruct (fig_src_entry _ _ _ _ _ _ H1 Hk) as (ck & E1 & -> & Ec).
+    destruct (fig_src_entry _ _ _ _ _ _ H2 Hk) as (ck' & E2 & -> & Ec').
+    rewrite Ec in Ec'. apply card_of_key_inj in Ec'. subst ck'.
+    rewrite (Hfun _ _ _ _ _ E1 E2). auto.
+  Qed.
 End Keys.
